@@ -317,7 +317,7 @@ def strict_caller(ctx, tmp):
 
 
 def run(ctx):
-    ctx.check_proofs(["MPilot.Props.C13", "MPilot.Props.C13Cli", "MPilot.Props.C13Err"])
+    ctx.check_proofs(["MPilot.Props.C13", "MPilot.Props.C13Cli", "MPilot.Props.C13Err", "MPilot.Props.C13Run"])
     model = common.Model()
     rng = ctx.rng
     tmp = common.tmpdir("mpv_c13_")
